@@ -258,8 +258,20 @@ func runSpec(count int) {
 }
 
 // layerOrder: limit/jitter layers are applied in the order they were added; Build twice gives the same.
+// The base reaches the builder by one of its routes: the spec, the spec after BaseBackoff(nil) (a nil base is ignored, it must
+// not panic or hide the spec), or BaseBackoff(object built directly from the same numbers).
 func layerOrder(s string, direct retry.Backoff) string {
-	bld := retry.NewBackoffBuilder().BaseBackoffSpec(s)
+	bld := retry.NewBackoffBuilder()
+	how := rng.Intn(4)
+	switch how {
+	case 2:
+		bld.BaseBackoff(nil).BaseBackoffSpec(s)
+	case 3:
+		bld.BaseBackoff(direct)
+	default:
+		bld.BaseBackoffSpec(s)
+	}
+	stats[fmt.Sprint("spec builder base route ", how)]++
 	var want retry.Backoff = direct
 	var err error
 	nl := rng.Intn(4)
@@ -288,10 +300,10 @@ func layerOrder(s string, direct retry.Backoff) string {
 	for round := 0; round < 2; round++ {
 		got, err := bld.Build()
 		if err != nil {
-			return fmt.Sprintf("Build with %d valid layers failed: %v", nl, err)
+			return fmt.Sprintf("Build with %d valid layers failed (base given by route %d: 0,1 = spec; 2 = BaseBackoff(nil) then spec; 3 = BaseBackoff(object built directly)): %v", nl, how, err)
 		}
 		if msg := sameDelays(got, want); msg != "" {
-			return fmt.Sprintf("builder layers (%d) differ from manual wrapping in order (build #%d): %s", nl, round+1, msg)
+			return fmt.Sprintf("builder layers (%d, base route %d) differ from manual wrapping in order (build #%d): %s", nl, how, round+1, msg)
 		}
 	}
 	return ""
